@@ -3,7 +3,7 @@
   exactly the last min(t, n) inputs, for every period, every finite stream, every prefix.
   Template for the other windowed indicators.
 -/
-import TaRs.Lemmas.Core.SimpleMovingAverage
+import TaRs.Lemmas.SimpleMovingAverage
 import TaRs.Lemmas.Ring
 import TaRs.Lemmas.XLemmas
 import TaRs.Lemmas.Machine
@@ -91,14 +91,13 @@ theorem step {n : Nat} {s : SimpleMovingAverage (X K)} {h : List K} (i : Inv n s
     rw [lastN_length, hc']; simp
   refine ⟨{ period := p, index := if ix + 1 < p then ix + 1 else 0, count := if c < p then c + 1 else c,
             sum := X.fin (lastN p (h ++ [x])).sum, deque := d.setIfInBounds ix (X.fin x) }, ?_, ⟨rfl, hsmall, ?_, rfl⟩⟩
-  · unfold next
-    simp (disch := omega) only [index_eq, setIndex_eq, uadd_eq]
-    have e1 : (lastN p (h ++ [x])).sum = (lastN p h).sum - (if h.length < p then 0 else h[h.length - p]?.getD 0) + x :=
+  · have e1 : (lastN p (h ++ [x])).sum = (lastN p h).sum - (if h.length < p then 0 else h[h.length - p]?.getD 0) + x :=
       lastN_sum_push p hn h x
     have hcK : ((if c < p then c + 1 else c : Nat) : K) ≠ 0 := ne_of_gt hcpos
+    rw [next_eq _ _ _ (inv_wf i) hold]
     by_cases c1 : ix + 1 < p <;> by_cases c2 : c < p <;>
       simp only [c2, if_true, if_false] at hcK hlen <;> (try push_cast at hcK) <;>
-      simp (disch := omega) [uadd_eq, c1, c2, hold', hsum, e1, mean, hlen, X.div_fin _ _ hcK]
+      simp (disch := omega) [c1, c2, hsum, e1, mean, hlen, X.div_fin _ _ hcK]
   · simpa using hpush
 
 /-- C01 for SMA at `X K`: every output is the mean of exactly the last min(t, n) inputs -/
